@@ -82,8 +82,19 @@ def _lines_enc(lines):
     return [[txt(str(c)) for c in l] for l in (lines or [])]
 
 
+def _flatten_printouts(po):
+    """every non-empty section of a printouts dictionary, in its order: a '---- PRINTOUT: <name>' line, then the section's lines"""
+    out = []
+    for k, v in (po or {}).items():
+        if v:
+            out.append(f"---- PRINTOUT: {k}")
+            out.extend(str(x) for x in v)
+    return out
+
+
 def _parse_printouts(text):
-    """printouts.txt: '---- PRINTOUT: <name>' sections; returns the default section's lines"""
+    """printouts.txt: '---- PRINTOUT: <name>' sections (printed lines contain no newline); returns every non-empty section, flattened
+    the same way as the in-memory printouts"""
     if text is None:
         return []
     out, cur = {}, None
@@ -96,7 +107,7 @@ def _parse_printouts(text):
     for k in out:
         if out[k] and out[k][-1] == "":
             out[k].pop()
-    return out.get("default", [])
+    return _flatten_printouts(out)
 
 
 def project_run(cp, group, texts, members_cases, records, rec, calls, method, raised, idents, stores_unchanged=True):
@@ -126,7 +137,7 @@ def project_run(cp, group, texts, members_cases, records, rec, calls, method, ra
                 "vars": _vars_enc(p.variables),
                 "valid": bool(p.is_valid),
                 "errLines": [int(e.line_count) for e in (res.errors if res is not None else [])],
-                "printed": [txt(s) for s in (res.get_printouts().get("default", []) if res is not None else [])],
+                "printed": [txt(s) for s in (_flatten_printouts(res.get_printouts()) if res is not None else [])],
                 "lines": _lines_enc([records[k] for k in ret_idx]),
                 "unmatched": _lines_enc(res.unmatched if (res is not None and res.unmatched) else []),
             }
